@@ -230,9 +230,13 @@ def configs(ctx):
                             continue
                         if script == "is_sat" and eoe:
                             continue
+                        if q and eoe and script not in ("solve", "solve+model"):
+                            continue
                         if n == 3 and script not in ("solve", "solve+model"):
                             continue
                         two = script in ("solve-push-solve", "solve-twice")
+                        if q and two and (eoe or any(b in ("unknown", "exit") for b in behs)):
+                            continue
                         bound = (2 if two else None) if n == 2 else 3
                         if not q and two:
                             bound = 3
@@ -240,7 +244,7 @@ def configs(ctx):
     if q:
         # three members under a preemption bound of 2, the most race-prone script
         for behs in itertools.product(("first", "last", "raise", "exit"), repeat=3):
-            out.append((behs, "solve+model", False, False, 2, ctx.seed))
+            out.append((behs, "solve+model", False, False, 1, ctx.seed))
     else:
         for behs in itertools.product(("first", "last", "raise"), repeat=4):
             if sum(1 for b in behs if b in ANSWERING) in (0, 1, 2):
@@ -266,7 +270,7 @@ def run(ctx):
                          "configurations": c.get("configs", 0),
                          "preemption_bounds": {"2 members, one solve": "unbounded",
                                                "2 members, two solves": 2 if ctx.quick else 3,
-                                               "3 members": 2 if ctx.quick else 3,
+                                               "3 members": 1 if ctx.quick else 3,
                                                "4 members": None if ctx.quick else 1}})
     if c.get("capped_configs"):
         ctx.exhaustive = False
